@@ -93,7 +93,27 @@ impl Property for C10 {
         let store = SimWalStore::new(Seq::default());
         let mut rot = match WalRotator::new(store.clone(), max_file_size) { Ok(r) => r, Err(e) => { rep.violate("C10/setup", e.to_string()); return rep; } };
         let mut per_file: BTreeMap<String, Vec<Orig>> = BTreeMap::new();
-        for (id, ts, payload, r) in &specs {
+        // one image in four is written on a disk that now and then rejects an append outright (I/O error or disk full, not a byte
+        // written): the rotator carries on with the next entry, and an entry whose append was refused was never appended - no
+        // recovery may return it
+        let reject_mode = specs.len() >= 2 && fnv(0x10, &[specs.len() as u8, (specs[0].1 & 0xff) as u8, (max_file_size & 0xff) as u8]) % 4 == 0;
+        for (ix, (id, ts, payload, r)) in specs.iter().enumerate() {
+            if reject_mode && ix + 1 < specs.len() && (ix as u64 + *ts) % 2 == 0 {
+                let e = WalEntry::from_delta(&delta(1000 + *id, ts.wrapping_add(500_000), b"never-appended", *r), ts.wrapping_add(500_000)).unwrap();
+                let c0 = store.inner.lock().unwrap().calls;
+                let f = if ix % 2 == 0 { crate::simkit::disk::WalFault::AppendError } else { crate::simkit::disk::WalFault::DiskFull };
+                store.set_plan((c0..c0 + 4).map(|c| (c, f)).collect());
+                let res = rot.append(&e);
+                store.set_plan(BTreeMap::new());
+                match res {
+                    Err(_) => { rep.fault(f.name()); rep.probe("append_rejected_while_image_was_written"); }
+                    Ok(seqno) => {
+                        let name = format!("wal-{:08x}.wal", seqno);
+                        let end = store.full_image()[&name].len();
+                        per_file.entry(name).or_default().push(Orig { data: e.data.clone(), ts: e.timestamp, crc: e.checksum, start: end - e.disk_size(), end });
+                    }
+                }
+            }
             let e = WalEntry::from_delta(&delta(*id, *ts, payload, *r), *ts).unwrap();
             let seqno = match rot.append(&e) { Ok(s) => s, Err(er) => { rep.violate("C10/setup-append", er.to_string()); return rep; } };
             let name = format!("wal-{:08x}.wal", seqno);
@@ -115,6 +135,7 @@ impl Property for C10 {
             let file = (h_file as usize) % names.len();
             let flen = img[&names[file]].len();
             let m = match h_kind {
+                1 | 2 if flen == 0 => Mutation::Remove { file }, // (a rejected header write leaves an empty file)
                 0 => Mutation::Truncate { file, len: (h_off as usize) % (flen + 1) },
                 1 => Mutation::Flip { file, byte: (h_off as usize) % flen.max(1), bit: (h_arg % 8) as u8 },
                 2 => Mutation::Burst { file, byte: (h_off as usize) % flen.max(1), pattern: h_arg as u32 },
